@@ -160,10 +160,10 @@ Proof. vm_compute. reflexivity. Qed.
 
 (** first write of 2 elements at element 3 of a new 2x3 int32 dataset, user fill 7 *)
 Example ex_first_write :
-  let m := mkM [2; 3] 4 0 (Some 7) 0 false [] in
+  let m := mkM [2; 3] 4 0 (Some 7) 0 false [] 0 in
   var_len m = 6 * 4 /\
   xdr_vdata m true (3 * 4) 2 [Val 100; Val 101] =
-    Some (mkM [2; 3] 4 0 (Some 7) 0 false [Val 7; Val 7; Val 7; Val 100; Val 101; Val 7],
+    Some (mkM [2; 3] 4 0 (Some 7) 0 false [Val 7; Val 7; Val 7; Val 100; Val 101; Val 7] 0,
           [TWrite 0 12; TWrite 12 8; TWrite 20 4], []).
 Proof. vm_compute. split; reflexivity. Qed.
 
@@ -175,10 +175,10 @@ Proof. vm_compute. reflexivity. Qed.
 
 (** growth: numrecs 1 -> write positioned at record 3 of an (unlimited x 2) uint8 dataset *)
 Example ex_growth :
-  let m := mkM [0; 2] 1 1 None 129 false [Val 1; Val 2] in
+  let m := mkM [0; 2] 1 1 None 129 false [Val 1; Val 2] 0 in
   is_recvar m = true /\ var_len m = 2 * 1 /\
   coordck m true [3; 0] =
-    Some (mkM [0; 2] 1 4 None 129 false [Val 1; Val 2; Val 129; Val 129; Val 129; Val 129; Val 129; Val 129],
+    Some (mkM [0; 2] 1 4 None 129 false [Val 1; Val 2; Val 129; Val 129; Val 129; Val 129; Val 129; Val 129] 0,
           [TWrite 2 2; TWrite 4 2; TWrite 6 2]).
 Proof. vm_compute. repeat split; reflexivity. Qed.
 
